@@ -90,12 +90,18 @@ def pick(spec, ax):
     return spec
 
 
-def resolve(per, gb, gf, cb, cf, ax):
+KNOWN_LIST = "list-periodic:unnamed-axis-stays-periodic"
+
+
+def resolve(per, gb, gf, cb, cf, ax, defect=False):
+    """defect=True: the recorded finding - an axis that a list-valued `periodic` does not
+    name stays periodic - used only to *classify* an observed mismatch."""
     rule = pick(cb, ax)
     if rule is None:
         rule = pick(gb, ax)
     if rule is None:
-        rule = "periodic" if is_periodic(per, ax) else "fill"
+        p = is_periodic(per, ax) or (defect and isinstance(per, list))
+        rule = "periodic" if p else "fill"
     f = pick(cf, ax)
     if f is None:
         f = pick(gf, ax)
@@ -176,6 +182,12 @@ def check_pad(rec, n, per, gb, gf, cb, cf, w, layout, seed, g=None, second=True)
             sl = [slice(None)] * v.ndim
             sl[ix] = slice(wx[0], wx[0] + a0.shape[ix]); sl[iy] = slice(wy[0], wy[0] + a0.shape[iy])
             cls = "interior-changed" if not np.array_equal(v[tuple(sl)], a0) else "new-cells"
+            if isinstance(per, list):
+                dx = resolve(per, gb, gf, cb, cf, "X", defect=True)
+                dy = resolve(per, gb, gf, cb, cf, "Y", defect=True)
+                d1 = ref_pad(ref_pad(a0, ix, *wx, *dx), iy, *wy, *dy)
+                if (dx, dy) != (rx, ry) and np.array_equal(v[~corner], d1[~corner]):
+                    cls = KNOWN_LIST
             rec.violation("pad", cls, case, e1, v)
             return
         if not ok_corner:
@@ -191,8 +203,10 @@ def check_axis_settings(rec, n, per, gb, gf, g):
         rule, f = resolve(per, gb, gf, None, None, ax)
         got = (g.axes[ax].boundary, float(g.axes[ax].fill_value))
         if got != (rule, f):
-            rec.violation("axis-setting", f"{ax}:expected-{rule}-got-{got[0]}" if got[0] != rule else f"{ax}:fill_value",
-                          case, [rule, f], list(got))
+            cls = f"{ax}:expected-{rule}-got-{got[0]}" if got[0] != rule else f"{ax}:fill_value"
+            if isinstance(per, list) and got == resolve(per, gb, gf, None, None, ax, defect=True):
+                cls = KNOWN_LIST
+            rec.violation("axis-setting", cls, case, [rule, f], list(got))
             return
 
 
@@ -217,7 +231,13 @@ def check_diff(rec, n, per, gb, gf, cb, cf, seed, g=None):
             return
         e = np.moveaxis(ref_stencil(np.moveaxis(a0, axi, -1), "center", "left", n, op, rule, f), -1, axi)
         if r.shape != e.shape or not np.array_equal(r.values, e):
-            rec.violation("grid-op", f"{op}-values", case, e, r.values)
+            cls = f"{op}-values"
+            if isinstance(per, list):
+                drule, df = resolve(per, gb, gf, cb, cf, ax, defect=True)
+                d = np.moveaxis(ref_stencil(np.moveaxis(a0, axi, -1), "center", "left", n, op, drule, df), -1, axi)
+                if (drule, df) != (rule, f) and r.shape == d.shape and np.array_equal(r.values, d):
+                    cls = KNOWN_LIST
+            rec.violation("grid-op", cls, case, e, r.values)
             return
 
 
